@@ -573,7 +573,9 @@ func c14Metadata(c *core.Ctx, mine func() bool) {
 		// PUT /services
 		if c.Rng.Intn(3) == 0 {
 			rec := httptest.NewRecorder()
-			if pp, v, fr, _ := core.Guard(func() { srv.ServeHTTP(rec, httptest.NewRequest("PUT", "https://idp.example.com/services/s1", bytes.NewReader(doc))) }); pp {
+			if pp, v, fr, _ := core.Guard(func() {
+				srv.ServeHTTP(rec, httptest.NewRequest("PUT", "https://idp.example.com/services/s1", bytes.NewReader(doc)))
+			}); pp {
 				c.Violation("C14/panic/"+fr, fmt.Sprint(v), desc)
 				return
 			}
